@@ -10,6 +10,13 @@ NOTES = "All checks rebuild from /repo's working tree through bin/prepare (instr
 NOT_APPLICABLE = {}
 A_NOTE = "Trusted: the vrt shims model Go's mutex/cond/channel/select/timer semantics faithfully (self-tests + repository tests pass on the instrumented build in passthrough mode); sequential consistency; scheduling points before acquire-type operations only; data races are left to a separate -race pass."
 CHECKS = {
+    "C12": {
+        "engine": "enumeration on gosched (deterministic schedule)",
+        "technique": "exhaustive enumeration of history length x delivered bookmark x further writes x watch flavour, of derived bookmark byte strings and of tail sizes on the real inmem watch ring; every watch run to exact quiescence on the controlled scheduler and compared with the commit log",
+        "text": "For 11 history configurations (initial/max/gap incl. growth, wrap-around, gap >= capacity) and every history of 0..7 (thorough 12) scripted writes: each bookmark delivered to by-id, kind and aggregated watches (and the -1 bookmark of a bootstrap on an empty log) is used to restart all three flavours after 0, 1 and 2 further writes; an accepted restart must deliver exactly the events that followed the bookmark (compared with the commit log, so a gap, duplicate or reorder shows), each again with a bookmark; the most recent (initial capacity - gap) events' bookmarks must be accepted; a rejection must be an invalid-bookmark error with nothing delivered. Every truncation, extension and per-byte substitution (3 values) of a valid bookmark and correctly prefixed positions -3..len+2 must be rejected unless they are valid positions. Tail N for N=1..capacity+2 must deliver exactly the last min(N, retained) events (of that id for resource watches) and then the live events.",
+        "design_ref": "DESIGN.md 3/C12",
+        "note": A_NOTE + " Deterministic default schedule (consumers keep up); ring interleavings are C02's subject. 'retained' = min(log length, current capacity - gap), current capacity from a 6-line model of first-lap doubling.",
+    },
     "C18": {
         "engine": "enumx",
         "category": "exploration",
